@@ -216,6 +216,94 @@ func tail(s string, n int) string {
 	return s
 }
 
+// fanOut distributes run indices [0,total) of one id over worker processes
+// until the deadline, a violation that is not a known finding (matched under
+// matchProp) or the end of the range, and aggregates the records into a. It
+// returns the worker trouble met.
+func fanOut(bin, id, matchProp, tier string, seed uint64, sp *propSpec, total int, deadline time.Time, a *agg, known *knownFile) []string {
+	par := 16
+	if s := os.Getenv("VERIF_PAR"); s != "" {
+		if v, err := strconv.Atoi(s); err == nil && v > 0 {
+			par = v
+		}
+	}
+	chunk := sp.Chunk
+	type job struct{ from, to int }
+	jobs := make(chan job)
+	ctx, cancel := context.WithCancel(context.Background())
+	defer cancel()
+	var wg sync.WaitGroup
+	var troubleMu sync.Mutex
+	var trouble []string
+	stop := false
+	var stopMu sync.Mutex
+	for w := 0; w < par; w++ {
+		wg.Add(1)
+		go func() {
+			defer wg.Done()
+			for j := range jobs {
+				from := j.from
+				for from < j.to {
+					var lastRun = from - 1
+					sawViol := false
+					_, err := runWorker(ctx, bin, id, tier, seed, from, j.to, time.Duration(sp.WatchdogS)*time.Second, 1, func(r harness.Record) {
+						a.add(r, matchProp, known)
+						lastRun = r.Run
+						if r.Outcome.Violation != nil {
+							sawViol = true
+							if _, ok := known.match(matchProp, r.Outcome.Violation); !ok {
+								stopMu.Lock()
+								stop = true
+								stopMu.Unlock()
+							}
+						}
+					})
+					if err != nil {
+						troubleMu.Lock()
+						trouble = append(trouble, err.Error())
+						troubleMu.Unlock()
+						// the run after the last recorded one is the culprit; skip it
+						a.mu.Lock()
+						a.inconcl++
+						a.mu.Unlock()
+						from = lastRun + 2
+						continue
+					}
+					if sawViol {
+						// the worker stops at a violation; continue after it
+						// (only reached for known findings, otherwise stop is set)
+						stopMu.Lock()
+						s := stop
+						stopMu.Unlock()
+						if s {
+							break
+						}
+						from = lastRun + 1
+						continue
+					}
+					break
+				}
+			}
+		}()
+	}
+	for from := 0; from < total; from += chunk {
+		stopMu.Lock()
+		s := stop
+		stopMu.Unlock()
+		if s || time.Now().After(deadline) {
+			break
+		}
+		to := from + chunk
+		if to > total {
+			to = total
+		}
+		jobs <- job{from, to}
+	}
+	close(jobs)
+	wg.Wait()
+	return trouble
+}
+
 func runCheck(prop, tier string) int {
 	start := time.Now()
 	sp, ok := specs[prop]
@@ -253,107 +341,71 @@ func runCheck(prop, tier string) int {
 	}
 	known := loadKnown()
 	a := newAgg()
-	par := 16
-	if s := os.Getenv("VERIF_PAR"); s != "" {
-		if v, err := strconv.Atoi(s); err == nil && v > 0 {
-			par = v
-		}
+	// known findings of a part (PartOf) are recorded under the property it belongs to
+	matchProp := prop
+	if sp.PartOf != "" {
+		matchProp = sp.PartOf
 	}
-	chunk := sp.Chunk
-	type job struct{ from, to int }
-	jobs := make(chan job)
-	ctx, cancel := context.WithCancel(context.Background())
-	defer cancel()
-	var wg sync.WaitGroup
-	var troubleMu sync.Mutex
-	var trouble []string
-	stop := false
-	var stopMu sync.Mutex
-	launched := 0
-	for w := 0; w < par; w++ {
-		wg.Add(1)
-		go func() {
-			defer wg.Done()
-			for j := range jobs {
-				from := j.from
-				for from < j.to {
-					var lastRun = from - 1
-					sawViol := false
-					n, err := runWorker(ctx, bin, prop, tier, seed, from, j.to, time.Duration(sp.WatchdogS)*time.Second, 1, func(r harness.Record) {
-						a.add(r, prop, known)
-						lastRun = r.Run
-						if r.Outcome.Violation != nil {
-							sawViol = true
-							if _, ok := known.match(prop, r.Outcome.Violation); !ok {
-								stopMu.Lock()
-								stop = true
-								stopMu.Unlock()
-							}
-						}
-					})
-					_ = n
-					if err != nil {
-						troubleMu.Lock()
-						trouble = append(trouble, err.Error())
-						troubleMu.Unlock()
-						// the run after the last recorded one is the culprit; skip it
-						a.mu.Lock()
-						a.inconcl++
-						a.mu.Unlock()
-						from = lastRun + 2
-						continue
-					}
-					if sawViol {
-						// the worker stops at a violation; continue after it
-						// (only reached for known findings, otherwise stop is set)
-						stopMu.Lock()
-						s := stop
-						stopMu.Unlock()
-						if s {
-							break
-						}
-						from = lastRun + 1
-						continue
-					}
-					break
-				}
+	// The main id gets the whole budget, or 70% of it when further ids
+	// (sp.Also) are part of the property; those run afterwards, one after the
+	// other, until the budget ends.
+	deadline := start.Add(budget)
+	if len(sp.Also) > 0 {
+		deadline = start.Add(budget * 7 / 10)
+	}
+	trouble := fanOut(bin, prop, matchProp, tier, seed, sp, total, deadline, a, known)
+	// Parts served under other ids (e.g. C14X, the index part of C14): same
+	// fan-out, their own run counts, known findings matched under this
+	// property; each part keeps its own aggregate for the evidence and its
+	// violations / known hits / inconclusive runs are folded into the main one.
+	parts := map[string]*agg{}
+	for _, id := range sp.Also {
+		sub, ok := specs[id]
+		if !ok {
+			continue
+		}
+		subTotal := sub.QuickRuns
+		if tier == "thorough" {
+			subTotal = sub.ThoroughRuns
+		}
+		if s := os.Getenv("VERIF_RUNS"); s != "" {
+			if v, err := strconv.Atoi(s); err == nil {
+				// VERIF_RUNS speaks about the main id; keep the quick tier's proportion
+				subTotal = min(subTotal, max(v*sub.QuickRuns/max(sp.QuickRuns, 1), 1))
 			}
-		}()
-	}
-	for from := 0; from < total; from += chunk {
-		stopMu.Lock()
-		s := stop
-		stopMu.Unlock()
-		if s || time.Since(start) > budget {
-			break
 		}
-		to := from + chunk
-		if to > total {
-			to = total
+		pa := newAgg()
+		parts[id] = pa
+		if len(a.viols) > 0 {
+			continue // the main part already failed; report that
 		}
-		jobs <- job{from, to}
-		launched = to
+		trouble = append(trouble, fanOut(bin, id, matchProp, tier, seed, sub, subTotal, start.Add(budget), pa, known)...)
+		a.viols = append(a.viols, pa.viols...)
+		a.inconcl += pa.inconcl
+		a.inconclMsg = append(a.inconclMsg, pa.inconclMsg...)
+		for what, n := range pa.known {
+			a.known[what] += n
+		}
 	}
-	close(jobs)
-	wg.Wait()
-	_ = launched
 
 	exit := 0
 	var replayPath string
 	var reported *harness.Violation
 	var raceInfo map[string]any
 	if sp.Race && len(a.viols) == 0 {
+		// runRace returns the first race report that is not a known finding
+		// and counts the known ones
 		var rv *harness.Violation
-		rv, replayPath, raceInfo = runRace(sp, tier, seed, known)
+		var raceKnown map[string]int
+		rv, replayPath, raceInfo, raceKnown = runRace(sp, tier, seed, known, matchProp)
+		for what, n := range raceKnown {
+			a.known[what] += n
+		}
 		if rv != nil {
-			if what, isKnown := known.match(prop, rv); isKnown {
-				a.known[what]++
-			} else {
-				reported = rv
-				fmt.Printf("  %s\n", rv.Detail)
-				fmt.Printf("VIOLATION property=%s replay=%s\n", prop, replayPath)
-				exit = 1
-			}
+			reported = rv
+			fmt.Printf("  %s\n", rv.Detail)
+			fmt.Printf("VIOLATION property=%s replay=%s\n", prop, replayPath)
+			exit = 1
 		}
 	}
 	if len(a.viols) > 0 {
@@ -366,7 +418,7 @@ func runCheck(prop, tier string) int {
 		ok, stable := verifyReplay(bin, replayPath, minViol)
 		fmt.Printf("[check] replay in fresh process: reproduced=%v (%d/3)\n", ok, stable)
 		// a minimised violation may turn out to be a known finding
-		if what, isKnown := known.match(prop, minViol); isKnown {
+		if what, isKnown := known.match(matchProp, minViol); isKnown {
 			a.known[what]++
 		} else {
 			reported = minViol
@@ -378,9 +430,17 @@ func runCheck(prop, tier string) int {
 	for what, n := range a.known {
 		fmt.Printf("KNOWN-FINDING: property=%s %s (seen in %d runs)\n", prop, what, n)
 	}
+	// totals over the main id and its parts (a.inconcl already holds the sum)
+	evals, subRuns, nops, nontrivial := a.evals, a.subRuns, a.ops, len(a.nontrivial)
+	for _, pa := range parts {
+		evals += pa.evals
+		subRuns += pa.subRuns
+		nops += pa.ops
+		nontrivial += len(pa.nontrivial)
+	}
 	inconclFrac := 0.0
-	if a.evals+a.inconcl > 0 {
-		inconclFrac = float64(a.inconcl) / float64(a.evals+a.inconcl)
+	if evals+a.inconcl > 0 {
+		inconclFrac = float64(a.inconcl) / float64(evals+a.inconcl)
 	}
 	if exit == 0 {
 		if a.evals == 0 {
@@ -397,20 +457,38 @@ func runCheck(prop, tier string) int {
 					exit = 2
 				}
 			}
+			for _, id := range sp.Also {
+				for _, p := range specs[id].MustReach {
+					if pa := parts[id]; pa != nil && pa.reached[p] == 0 && pa.fired[p] == 0 {
+						fmt.Fprintf(os.Stderr, "TROUBLE: reach probe %q of part %s stayed at zero in the thorough tier\n", p, id)
+						exit = 2
+					}
+				}
+			}
 		}
 	}
 	if len(trouble) > 0 {
 		fmt.Fprintf(os.Stderr, "[check] worker trouble (%d): %s\n", len(trouble), tail(strings.Join(trouble, " | "), 1500))
 	}
 	a.extra = raceInfo
-	writeEvidence(sp, tier, seed, a, time.Since(start), reported, replayPath)
+	if sp.PartOf == "" {
+		writeEvidence(sp, tier, seed, a, parts, time.Since(start), reported, replayPath)
+	} else {
+		fmt.Printf("[check] %s is a part of %s: no evidence file written (run `check %s %s`)\n", prop, sp.PartOf, sp.PartOf, tier)
+	}
+	for _, id := range sp.Also {
+		if pa := parts[id]; pa != nil {
+			fmt.Printf("[check]   part %s: %d runs (%d sub-runs, %d operations), %d distinct non-trivial\n", id, pa.evals, pa.subRuns, pa.ops, len(pa.nontrivial))
+		}
+	}
 	fmt.Printf("[check] %s %s: %d runs (%d sub-runs, %d operations), %d distinct non-trivial, %d inconclusive, %.1fs, exit %d\n",
-		prop, tier, a.evals, a.subRuns, a.ops, len(a.nontrivial), a.inconcl, time.Since(start).Seconds(), exit)
+		prop, tier, evals, subRuns, nops, nontrivial, a.inconcl, time.Since(start).Seconds(), exit)
 	return exit
 }
 
-func writeEvidence(sp *propSpec, tier string, seed uint64, a *agg, wall time.Duration, v *harness.Violation, replay string) {
-	cov := map[string]any{
+// coverageOf renders one aggregate (the main id's or a part's).
+func coverageOf(sp *propSpec, a *agg, wall time.Duration, seed uint64) map[string]any {
+	return map[string]any{
 		"evaluations":         a.evals,
 		"distinct_nontrivial": len(a.nontrivial),
 		"rule":                sp.Rule,
@@ -435,6 +513,44 @@ func writeEvidence(sp *propSpec, tier string, seed uint64, a *agg, wall time.Dur
 		"known_findings_hit": a.known,
 		"exhaustive":         false,
 	}
+}
+
+// writeEvidence writes evidence/<ID>.json. The top-level coverage describes
+// the main id; when the property has parts (sp.Also) each part's coverage is
+// nested under coverage.also.<id> and evaluations / distinct_nontrivial are
+// the sums over the main id and its parts (the per-id numbers are kept under
+// evaluations_by_id / distinct_nontrivial_by_id).
+func writeEvidence(sp *propSpec, tier string, seed uint64, a *agg, parts map[string]*agg, wall time.Duration, v *harness.Violation, replay string) {
+	cov := coverageOf(sp, a, wall, seed)
+	assume := append(append([]string{}, commonAssume...), sp.Assume...)
+	if len(sp.Also) > 0 {
+		also := map[string]any{}
+		evals, nontriv := a.evals, len(a.nontrivial)
+		evalsBy := map[string]int{sp.ID: a.evals}
+		nontrivBy := map[string]int{sp.ID: len(a.nontrivial)}
+		for _, id := range sp.Also {
+			pa, sub := parts[id], specs[id]
+			if pa == nil || sub == nil {
+				continue
+			}
+			pc := coverageOf(sub, pa, wall, seed)
+			pc["assumptions"] = sub.Assume
+			if pa.samples == nil {
+				pc["samples"] = []any{"(no run completed)"}
+			}
+			also[id] = pc
+			evals += pa.evals
+			nontriv += len(pa.nontrivial)
+			evalsBy[id], nontrivBy[id] = pa.evals, len(pa.nontrivial)
+			for _, as := range sub.Assume {
+				assume = append(assume, id+": "+as)
+			}
+		}
+		cov["also"] = also
+		cov["evaluations"], cov["distinct_nontrivial"] = evals, nontriv
+		cov["evaluations_by_id"], cov["distinct_nontrivial_by_id"] = evalsBy, nontrivBy
+		cov["runs_per_hour"] = int(float64(evals) / wall.Hours())
+	}
 	if a.samples == nil {
 		cov["samples"] = []any{"(no run completed)"}
 	}
@@ -453,7 +569,7 @@ func writeEvidence(sp *propSpec, tier string, seed uint64, a *agg, wall time.Dur
 		"seed":        seed,
 		"level":       sp.Level,
 		"coverage":    cov,
-		"assumptions": append(append([]string{}, commonAssume...), sp.Assume...),
+		"assumptions": assume,
 		"wall_s":      wall.Seconds(),
 		"violations":  nviol,
 	}
